@@ -32,4 +32,18 @@ theorem positive_amount_positive (n f : Int) (d : Nat) (hd : 0 < d) (h : (d : In
 /-- the minimum the binary runs with for the flag values of the repaired defect -/
 example : parseEther "1 wei" = some 1 ∧ parseEther "250 wei" = some 250 ∧ parseEther "-1 wei" = some (-1) := by decide
 
+/-- **only `off` switches the minimum off**: every other accepted value of `--contract.min-balance` — zero in any
+spelling and negative amounts included — configures a minimum (seeded change C03-r4 made a zero minimum behave as
+`off`; the `poolbin-flags` stream bills a client below zero against such a binary) -/
+theorem only_off_disables_minimum (s : String) : minBalanceFlag s = some none ↔ s = "off" := by
+  unfold minBalanceFlag
+  by_cases h : s = "off"
+  · simp [h]
+  · have hb : (s == "off") = false := by simpa using h
+    simp only [hb, Bool.false_eq_true, if_false, h, iff_false]
+    cases parseEther s <;> simp
+
+theorem zero_is_a_minimum : minBalanceFlag "0" = some (some 0) ∧ minBalanceFlag "0 wei" = some (some 0) ∧
+    minBalanceFlag "0.0" = none ∧ minBalanceFlag "0 ether" = some (some 0) ∧ minBalanceFlag "-1" = some (some (-1)) := by decide
+
 end Vipnode.C03E
